@@ -67,12 +67,12 @@ def check_program(ctx, line, sp, events, profile, stage):
     for x_abs, exp in zip(line['pts'], line['vals']):
         ctx.count([e, x_abs, profile, sp.big], nontriv)
         x = sp.point(line['dom'], x_abs)
-        xb = x.asarray().tobytes() if line['dom'] == 'V' else None
+        xb = x.asarray().tobytes() if line['dom'] in ('V', 'VR') else None
         obs, note, err = None, '', ''
         try:
             y = op(x)
             obs, note = sp.project(line['ran'], y, D)
-            if line['ran'] == 'V' and y not in op.range:
+            if line['ran'] in ('V', 'VR') and y not in op.range:
                 note = note or 'result-not-in-range'
         except Exception as ex:
             err = type(ex).__name__
@@ -87,12 +87,12 @@ def check_program(ctx, line, sp, events, profile, stage):
         if xb is not None and x.asarray().tobytes() != xb:
             ctx.violation(dict(sig0, clause='input-modified', mode='out-of-place'), dict(detail0, x=x_abs))
         # in-place
-        if line['ran'] == 'V':
+        if line['ran'] in ('V', 'VR'):
             x = sp.point(line['dom'], x_abs)
             out = op.range.element(np.full(sp.n, np.nan))
             try:
                 r = op(x, out=out)
-                obs2, note2 = sp.project('V', out, D)
+                obs2, note2 = sp.project(line['ran'], out, D)
                 events.append({'prog': e, 'x': x_abs, 'val': obs2, 'w': U.PROFILE_WQ[profile], 'err': '', 'mode': 'ip',
                                'profile': profile, 'deep': stage == 'sim'})
                 if obs2 != exp:
@@ -108,12 +108,12 @@ def check_program(ctx, line, sp, events, profile, stage):
             # aliased in-place evaluation: op(x, out=x) must leave the same value in x (the expression classes take
             # care of this: temporaries, scalar evaluated first, ...). Only asked when every leaf below is alias-safe by
             # itself (ALIAS_UNSAFE_LEAVES lists the leaf kinds that are not: a user-defined operator, a dense matrix).
-            if line['dom'] == 'V' and os.environ.get('VERIF_C04_ALIAS', '1') == '1' and \
+            if line['dom'] == line['ran'] and os.environ.get('VERIF_C04_ALIAS', '1') == '1' and \
                     not (U.leaf_kinds(e) & ALIAS_UNSAFE_LEAVES):
-                xa = sp.point('V', x_abs)
+                xa = sp.point(line['dom'], x_abs)
                 try:
                     r = op(xa, out=xa)
-                    obs3, note3 = sp.project('V', xa, D)
+                    obs3, note3 = sp.project(line['ran'], xa, D)
                     if obs3 != exp:
                         ctx.violation(dict(sig0, clause='value', mode='aliased', leaves='+'.join(sorted(U.leaf_kinds(e)))),
                                       dict(detail0, x=x_abs, observed=obs3, note=note3, aliased=True))
@@ -125,7 +125,7 @@ def check_program(ctx, line, sp, events, profile, stage):
                                   dict(detail0, x=x_abs, exc=str(ex)[:200], aliased=True))
     # --- the caller hands a VECTOR OPERAND of the expression (the v of v * A, A * v, A + v, ... - the very object) to the
     #     expression as `out`: (v * A)(x, out=v) still has to hold v * A(x) for the v the expression was built with
-    if line['ran'] == 'V' and os.environ.get('VERIF_C04_OPERAND_OUT', '1') == '1' and not sp.big:
+    if line['ran'] in ('V', 'VR') and os.environ.get('VERIF_C04_OPERAND_OUT', '1') == '1' and not sp.big:
         for x_abs, exp in list(zip(line['pts'], line['vals']))[:1]:
             for which in (0, -1):
                 sp.arith = []
@@ -140,7 +140,7 @@ def check_program(ctx, line, sp, events, profile, stage):
                 ctx.count([e, x_abs, profile, 'operand-out', which], nontriv)
                 try:
                     r = op2(sp.point(line['dom'], x_abs), out=out)
-                    obs4, note4 = sp.project('V', out, D)
+                    obs4, note4 = sp.project(line['ran'], out, D)
                     if obs4 != exp:
                         ctx.violation(dict(sig0, clause='value', mode='out-is-operand'),
                                       dict(detail0, x=x_abs, observed=obs4, note=note4, operand_out=which))
@@ -237,6 +237,10 @@ def run(ctx):
     for prof in ('R', 'RW', 'C'):
         jobs.append(('exh', prof, 's' if (quick or prof != 'R') else 'm3', None, None))
         jobs.append(('sim', prof, 'l', 'num=%d' % (100 if quick else 1500), 7))
+    # mixed fields: a complex space next to its real space (ComplexModulusSquared : V -> VR); scalars and vectors have to
+    # lie in the field / space of the side they act on (A * a: domain side, a * A: range side)
+    jobs.append(('exh', 'M', 's', None, None))
+    jobs.append(('sim', 'M', 'l', 'num=%d' % (60 if quick else 600), 6))
 
     def go(j):
         name, prof, size, sim, depth = j
@@ -244,7 +248,7 @@ def run(ctx):
                                      seed=(ctx.seed + 1) if sim else None)
         return j, out, res
     sane = []
-    for prof in ('R', 'RW', 'C'):
+    for prof in ('R', 'RW', 'C', 'M'):
         sane.append(('sane-' + prof, prof))
 
     def gosane(s):
@@ -255,7 +259,7 @@ def run(ctx):
         return 'rewrite-' + prof, run_tlc('MC_OpMachine.tla', 'MC_OpMachine_rewrite.cfg', work,
                                           env={'OM_PROFILE': prof, 'OM_SIZE': 's', 'OUT_FILE': os.devnull,
                                                'OM_RMULBUG': '0'}, workers=3, timeout=1500)
-    with ThreadPoolExecutor(max_workers=6) as ex:
+    with ThreadPoolExecutor(max_workers=8) as ex:
         f1 = [ex.submit(go, j) for j in jobs]
         f2 = [ex.submit(gosane, s) for s in sane]
         f3 = [ex.submit(gorewrite, p) for p in ('R', 'C')]
@@ -273,6 +277,8 @@ def run(ctx):
         small = U.Spaces(prof, big=False)
         big = U.Spaces(prof, big=True)
         for i, line in enumerate(lines):
+            if prof == 'M' and not (U.leaf_kinds(line['prog']) & {'cmod2', 'sqr'}):
+                continue        # purely complex programs are the subject of profile C
             nprog += 1
             check_program(ctx, line, small, events, prof, name)
             if (not quick) or (i + ctx.seed) % 4 == 0:
